@@ -91,6 +91,27 @@ func VerifHistory() {
 		panic(err)
 	}
 	acts = append(acts, vrtAction{vrtHFromByteAt(0x44), 0, Coinbase, C, nil, "", "PEG", h2, 3})
+	// batch E3 (entered at h1): a PEG request of C, executed with a recorded yield and refund
+	e3 := new(fat2.TransactionBatch)
+	e3.Version = 1
+	e3.Entry.Hash = vrtH(0x55)
+	e3.Entry.Timestamp = time.Unix(1600000800, 0)
+	var t4 fat2.Transaction
+	t4.Input.Address, t4.Input.Type, t4.Input.Amount = C, fat2.PTickerUSD, 1000
+	t4.Conversion = fat2.PTickerPEG
+	e3.Transactions = []fat2.Transaction{t4}
+	if err := p.InsertTransactionHistoryTxBatch(tx, 0, e3, h1); err != nil {
+		panic(err)
+	}
+	pegYield := vrt.Range("pegYield", 0, 1<<40)
+	pegRefund := vrt.Range("pegRefund", 0, 1000)
+	if err := p.SetTransactionHistoryPEGConvertedRequestAmount(tx, e3, 0, pegYield, pegRefund); err != nil {
+		panic(err)
+	}
+	if err := p.SetTransactionHistoryExecuted(tx, e3, int64(h2)); err != nil {
+		panic(err)
+	}
+	acts = append(acts, vrtAction{e3.Entry.Hash, 0, Conversion, C, nil, "pUSD", "PEG", h1, 4})
 	if err := tx.Commit(); err != nil {
 		panic(err)
 	}
@@ -110,7 +131,7 @@ func VerifHistory() {
 	match := func(a vrtAction) bool { return false }
 	switch field {
 	case 0:
-		h := []*factom.Bytes32{e1.Entry.Hash, burn.TransactionID, e2.Entry.Hash}[vrt.Choose("whichHash", 3)]
+		h := []*factom.Bytes32{e1.Entry.Hash, burn.TransactionID, e2.Entry.Hash, e3.Entry.Hash}[vrt.Choose("whichHash", 4)]
 		if vrt.Choose("useTxIndex", 2) == 1 {
 			opt.UseTxIndex = true
 			opt.TxIndex = vrt.Choose("txIndex", 2)
@@ -176,6 +197,13 @@ func VerifHistory() {
 			if *g.Hash == *w.hash && g.TxIndex == w.index {
 				n++
 				vrt.Assert("C17.returned-action-is-the-recorded-one", g.TxAction == w.typ && *g.FromAddress == w.from && g.FromAsset == w.fromAs && g.ToAsset == w.toAs && g.Height == int64(w.height))
+				// the recorded amounts come back with it
+				switch {
+				case *w.hash == *e3.Entry.Hash:
+					vrt.Assert("C17.returned-amounts-are-the-recorded-ones", g.ToAmount == pegYield && len(g.Outputs) == 1 && g.Outputs[0].Amount == pegRefund && g.Outputs[0].Address == C && g.Executed == int32(h2))
+				case *w.hash == *e1.Entry.Hash && w.index == 0:
+					vrt.Assert("C17.returned-amounts-are-the-recorded-ones", len(g.Outputs) == 2 && g.Outputs[0].Amount == 10 && g.Outputs[1].Amount == 20)
+				}
 			}
 		}
 		vrt.Assert("C17.every-matching-action-returned-once", n == 1)
